@@ -58,7 +58,13 @@ def B():
 
 def text(rng: random.Random, n: t.Optional[int] = None) -> str:
     n = rng.choice([0, 0, 1, 5, 12, 40, 300]) if n is None else n
-    kind = rng.choice(["ascii", "bmp", "astral", "mixed"])
+    kind = rng.choice(["ascii", "bmp", "astral", "mixed", "bom"])
+    if kind == "bom" and n:
+        # code points a careless codec treats specially: byte-order marks (either order) in first / later position, the
+        # last BMP code points, lone-surrogate-free boundaries, and U+0001 / U+00FF / U+0100 (byte patterns 01 00, FF 00, 00 01)
+        special = "\ufeff\ufffe\uffff\ufffd\ud7ff\ue000\u0001\u00ff\u0100"
+        lead = rng.choice("\ufeff\ufffe\ufeff\uffff")
+        return lead + "".join(rng.choice(special + "ab") for _ in range(n - 1))
     if kind == "ascii":
         return "".join(rng.choice("abcXYZ.-09") for _ in range(n))
     if kind == "bmp":
